@@ -72,7 +72,7 @@ def _sites_of_interest(w, spec):
                 fa.setdefault(kwmap.get(k, k), set()).update(v)
         if label == "call:_add_declaration_specifier":
             fa.pop("p0", None)     # the accumulated specifier record itself (threaded through every call)
-        rec = {k: W.simp_set(v) for k, v in sorted(fa.items())}
+        rec = {k: _canon_seq(W.simp_set(v)) for k, v in sorted(fa.items())}
         if label.startswith(("call:", "fn:")):
             # an argument that carries a location (only coordinate values / None) is marked, so that coordinate rules find it without its name
             for k in list(rec):
@@ -83,6 +83,48 @@ def _sites_of_interest(w, spec):
             continue        # only flags / constants are passed: nothing of the input flows through this call's parameters
         out.append([label, rec])
     return out
+
+
+def _canon_seq(vals):
+    """A list built as a display followed by appends in a loop - `[f(), f()]` then `.append(f())` per round, or `[f()]` then appends, or `[]`
+    and appends only - holds the results of the successive calls of f in order whichever way it is spelled.  When position i of the list
+    provably holds call #(i+c) of one callee from some position s on, the tail is rendered as one value `seq[s..]=callee#(i+c)`."""
+    import re as _re
+    disp = [v for v in vals if v.startswith("[") and v.endswith("]")]
+    apps = [v for v in vals if v.startswith("+append(") and v.endswith(")")]
+    if len(disp) != 1 or not apps or len(disp) + len(apps) != len(vals):
+        return vals
+    inner = disp[0][1:-1]
+    # split the display at top-level commas
+    elems, depth, cur = [], 0, ""
+    for ch in inner:
+        if ch in "([{":
+            depth += 1
+        elif ch in ")]}":
+            depth -= 1
+        if ch == "," and depth == 0:
+            elems.append(cur.strip())
+            cur = ""
+        else:
+            cur += ch
+    if cur.strip():
+        elems.append(cur.strip())
+    parsed = [_re.fullmatch(r"(\w+)#(\d+)(\+?)", a[len("+append("):-1]) for a in apps]
+    if not all(parsed) or len({m.group(1) for m in parsed}) != 1:
+        return vals
+    callee = parsed[0].group(1)
+    ks = sorted({(int(m.group(2)), m.group(3)) for m in parsed})
+    k0 = ks[0][0]
+    if not set(ks) <= {(k0, ""), (k0, "+")}:
+        return vals
+    n = len(elems)
+    c = k0 - n
+    s_ = n
+    while s_ > 0 and elems[s_ - 1] == f"{callee}#{s_ - 1 + c}" and s_ - 1 + c >= 0:
+        s_ -= 1
+    out = [f"seq[{i}]={elems[i]}" for i in range(s_)]
+    out.append(f"seq[{s_}..]={callee}#(i{c:+d})")
+    return sorted(out)
 
 
 def _is_const_text(v):
